@@ -286,15 +286,23 @@ func (sc *SpecCtx) pureCall(x *SX, fn *SX, args []*SX) (Val, bool) {
 	return Val{}, false
 }
 
+// mapIndex: m[k] as in Go — the stored value, or the zero value when k is absent.
 func (sc *SpecCtx) mapIndex(base, idx Val, u *types.Map) Val {
 	vc := sc.vc
-	_, vcomp, vsort, _, _ := vc.mapComps(u)
-	h := vc.heapGet(sc.st, vcomp, vsort)
-	if sc.hp != nil {
-		h = sc.hp.term(vcomp, vsort)
-	}
+	pcomp, vcomp, vsort, _, _ := vc.mapComps(u)
+	h := sc.heapTerm(vcomp, vsort)
+	ph := sc.heapTerm(pcomp, vc.compSort[pcomp])
 	k := sc.coerce(idx, u.Key())
-	return Val{Ty: vc.resolve(u.Elem()), T: sel(sel(h, base.T), k.T)}
+	present := and(not(eq(base.T, intLit(0))), sel(sel(ph, base.T), k.T))
+	return Val{Ty: vc.resolve(u.Elem()), T: ite(present, sel(sel(h, base.T), k.T), vc.zero(u.Elem()))}
+}
+
+// heapTerm: the current version of a heap component in this evaluation context.
+func (sc *SpecCtx) heapTerm(comp, srt string) Term {
+	if sc.hp != nil {
+		return sc.hp.term(comp, srt)
+	}
+	return sc.vc.heapGet(sc.st, comp, srt)
 }
 
 func (sc *SpecCtx) mapLen(v Val, u *types.Map) Val {
